@@ -68,25 +68,26 @@ structure Ext where
   opts : List Opt
 deriving DecidableEq, Repr
 
-/-- `HopByHopExtn.DecodeFromBytes` -/
-def decHBH (data : Bytes) : Except EErr (Ext × Bytes) :=
+/-- `checkHopByHopExtnNextHdr` / `checkEndToEndExtnNextHdr`: `true` = rejected -/
+def hbhChk (nh : Nat) : Bool := nh == 200
+def e2eChk (nh : Nat) : Bool := nh == 200 || nh == 201
+
+/-- `HopByHopExtn/EndToEndExtn.DecodeFromBytes` (`chk` = the layer's `NextHdr` check):
+`decodeExtnBase`, the check, then the option loop over `data[2:ActualLen]` -/
+def decExt (chk : Nat → Bool) (data : Bytes) : Except EErr (Ext × Bytes) :=
   match decExtBase data with
   | .error e => .error e
   | .ok (b, body, payload) =>
-    if b.nextHdr = 200 then .error .nextHdr
+    if chk b.nextHdr then .error .nextHdr
     else match decOpts body.length body with
       | .error e => .error e
       | .ok os => .ok (⟨b, os⟩, payload)
 
+/-- `HopByHopExtn.DecodeFromBytes` -/
+def decHBH (data : Bytes) : Except EErr (Ext × Bytes) := decExt hbhChk data
+
 /-- `EndToEndExtn.DecodeFromBytes` -/
-def decE2E (data : Bytes) : Except EErr (Ext × Bytes) :=
-  match decExtBase data with
-  | .error e => .error e
-  | .ok (b, body, payload) =>
-    if b.nextHdr = 200 ∨ b.nextHdr = 201 then .error .nextHdr
-    else match decOpts body.length body with
-      | .error e => .error e
-      | .ok os => .ok (⟨b, os⟩, payload)
+def decE2E (data : Bytes) : Except EErr (Ext × Bytes) := decExt e2eChk data
 
 /-- `HopByHopExtnSkipper.DecodeFromBytes` (options are not parsed) -/
 def decHBHSkip (data : Bytes) : Except EErr (ExtBase × Bytes) :=
@@ -131,9 +132,6 @@ def encExt (chk : Nat → Bool) (fix : Bool) (e : Ext) : Except EErr Bytes :=
     else
       let el := if fix then (ob.length + 2) / 4 - 1 else e.base.extLen
       .ok (UInt8.ofNat e.base.nextHdr :: UInt8.ofNat el :: ob)
-
-def hbhChk (nh : Nat) : Bool := nh == 200
-def e2eChk (nh : Nat) : Bool := nh == 200 || nh == 201
 
 /-! ### SCION/UDP and SCMP headers -/
 
@@ -189,5 +187,44 @@ def scmpMsgLen (typ : Nat) : Option Nat :=
   else if typ = 128 ∨ typ = 129 then some 4     -- Echo request / reply
   else if typ = 130 ∨ typ = 131 then some 20    -- Traceroute request / reply
   else none
+
+
+/-! ### specification vocabulary -/
+
+/-- a decoded-style option: widths, `Pad1` carries nothing, `OptDataLen` is the data length, no
+alignment request -/
+def Opt.WF (o : Opt) : Prop :=
+  o.typ < 256 ∧ o.dataLen = o.data.length ∧ o.data.length < 256 ∧ (o.typ = 0 → o.data = []) ∧
+  o.alignX = 0 ∧ o.alignY = 0
+
+instance (o : Opt) : Decidable o.WF := by unfold Opt.WF; exact inferInstance
+
+
+/-- a well-formed extension header value as the decoder produces it: field widths, well-formed
+options, and `ExtLen` = the length the options really have -/
+def Ext.WF (e : Ext) : Prop :=
+  e.base.nextHdr < 256 ∧ e.base.extLen < 256 ∧ (∀ o ∈ e.opts, o.WF) ∧
+  (encOpts e.opts).length + 2 = (e.base.extLen + 1) * 4
+
+/-- padding options (`Pad1`, `PadN`) -/
+def Opt.isPad (o : Opt) : Bool := o.typ == 0 || o.typ == 1
+
+/-- what an option means: type and data (alignment is a serializer hint, `OptDataLen` derived) -/
+def Opt.content (o : Opt) : Nat × Bytes := (o.typ, o.data)
+
+/-- serializer input: option type and data fit their fields, `Pad1` carries nothing, and the
+alignment request `x·n + y` is a proper one (`y < x`) -/
+def Opt.FixWF (o : Opt) : Prop :=
+  o.typ < 256 ∧ o.data.length < 256 ∧ (o.typ = 0 → o.data = []) ∧
+  (o.alignX = 0 ∨ (o.alignY < o.alignX ∧ o.alignX < 256))
+
+def contents (os : List Opt) : List (Nat × Bytes) := (os.filter (fun o => !o.isPad)).map Opt.content
+
+
+instance (o : Opt) : Decidable o.FixWF := by unfold Opt.FixWF; exact inferInstance
+
+def UDP.WF (u : UDP) : Prop :=
+  u.srcPort < 65536 ∧ u.dstPort < 65536 ∧ u.length < 65536 ∧ u.checksum < 65536
+def SCMPHdr.WF (h : SCMPHdr) : Prop := h.typ < 256 ∧ h.code < 256 ∧ h.checksum < 65536
 
 end Scion.WireExt
